@@ -20,9 +20,10 @@
    active parallel state targeted from inside it, found by the correspondence while this case was still outside the
    theorems - is repaired in /repo; before the repair this theorem was false of the model.
    PARTIAL: transitions that target the machine root break the invariant at HEAD (finding F5, kernel-checked witness
-   below); a history state whose default target is not a proper descendant of its parent, or whose parallel parent
-   declares a history state as `initial`, is outside the theorem (hist_static_ok; decided by the correspondence). *)
-From XSM Require Import Model.Macro Model.Snap Proofs.LegalP Proofs.ExecP Proofs.FaultP Proofs.StepP Proofs.DescentP Proofs.EffectP Proofs.PreserveP Proofs.InvariantP Proofs.SelectP Proofs.HistoryP Proofs.InvariantHP.
+   below); the side conditions are necessary: `initial` naming a history pseudo-state (F35), a history default target that
+   is itself a history pseudo-state (F36) or lies outside the history state's parent (F37) each make the code leave an
+   illegal configuration - kernel-checked witnesses below, recorded findings. *)
+From XSM Require Import Model.Macro Model.Snap Proofs.LegalP Proofs.ExecP Proofs.FaultP Proofs.StepP Proofs.DescentP Proofs.EffectP Proofs.PreserveP Proofs.InvariantP Proofs.SelectP Proofs.HistoryP Proofs.InvariantHP Proofs.SortP Proofs.IdP Gen.GenTree.
 From Coq Require Import Permutation.
 
 Theorem C01_legal_is_the_definition : forall m C, legal m C = true <-> Legal m C.
@@ -160,6 +161,15 @@ Theorem C01_transition_effect : forall m eng pr t tgt ev s0 s1,
 Proof. exact external_effect. Qed.
 Print Assumptions C01_transition_effect.
 
+(* TIE T for the ancestry oracle: _is_descendant - the string test on ids by which the code decides what lies below the
+   transition domain / inside a region (exit set, history recording) - as RE-TRANSLATED from the current source on every
+   run (Gen/GenTree.v) equals the model's tree test, for every machine whose ids are distinct dotted paths (a decidable
+   condition the harness evaluates for every machine of the C01 families) *)
+Theorem C01_ancestry_oracle_is_the_source : forall m, ancestry_side_ok m = true ->
+  forall s a, s < size m -> a < size m -> GenTree.is_descendant (id_of m s) (Some (id_of m a)) = is_desc m s a.
+Proof. exact ancestry_oracle_of_source. Qed.
+Print Assumptions C01_ancestry_oracle_is_the_source.
+
 (* steps that keep the configuration *)
 Theorem C01_unhandled_keeps : forall eng pr m ev s,
   select m (s_cfg s) (s_ctx s) ev = Some [] -> process_event eng pr m ev s = (s, None).
@@ -235,8 +245,58 @@ Proof. vm_compute. repeat split; reflexivity. Qed.
    falling outside C01_sync_runs_stay_legal *)
 Example C01_history_theorem_applies :
   wf f34 = true /\ twf f34 = true /\ good_initials f34 = true /\ safe_targets_hb f34 = true /\ safe_targetsb f34 = false /\
-  snd (sync_start f34 (st_init [])) = None.
+  snd (sync_start f34 (st_init [])) = None /\ ancestry_side_ok f34 = true.
 Proof. vm_compute. repeat split; reflexivity. Qed.
+
+(* THE SIDE CONDITIONS ARE NECESSARY - three more kernel-checked witnesses on which the code at HEAD (and the model)
+   leaves an illegal configuration; each violates exactly one hypothesis of C01_sync_runs_stay_legal_h and is a recorded
+   finding (known_findings.json, demos under findings/). *)
+Definition hn_ id par deep d dflt : node := Build_node id par (KHistory deep) [] None d [] [] [] None [] [] dflt None.
+(* F35: `initial` names a history pseudo-state (good_initials fails): the default descent enters it like a state *)
+Definition f35 : machine := Build_machine
+  [ n_ "m" None KCompound [1] (Some 1) 0 [];
+    n_ "m.p" (Some 0) KCompound [2; 3; 4] (Some 2) 1 [];
+    hn_ "m.p.h" (Some 1) false 2 None;
+    n_ "m.p.x" (Some 1) KAtomic [] None 2 [];
+    n_ "m.p.y" (Some 1) KAtomic [] None 2 [] ] 10 None.
+Theorem C01_initial_names_history_refuted :
+  wf f35 = true /\ good_initials f35 = false /\ snd (sync_start f35 (st_init [])) = None /\
+  s_cfg (fst (sync_start f35 (st_init []))) = [0; 1; 2] /\ legal f35 [0; 1; 2] = false.
+Proof. vm_compute. repeat split; reflexivity. Qed.
+Print Assumptions C01_initial_names_history_refuted.
+(* F36: the default target of a history pseudo-state is itself a history pseudo-state (safe_targets_hb fails) *)
+Definition f36 : machine := Build_machine
+  [ n_ "m" None KCompound [1; 2] (Some 1) 0 [];
+    n_ "m.a" (Some 0) KAtomic [] None 1 [("GO"%string, [Build_trans 0 1 "GO" (TState 3) None [] false false])];
+    n_ "m.p" (Some 0) KCompound [3; 4; 8] (Some 4) 1 [];
+    hn_ "m.p.h" (Some 2) false 2 (Some 5);
+    n_ "m.p.x" (Some 2) KCompound [5; 6; 7] (Some 6) 2 [];
+    hn_ "m.p.x.h2" (Some 4) false 3 None;
+    n_ "m.p.x.u" (Some 4) KAtomic [] None 3 [];
+    n_ "m.p.x.v" (Some 4) KAtomic [] None 3 [];
+    n_ "m.p.y" (Some 2) KAtomic [] None 2 [] ] 10 None.
+Theorem C01_history_default_is_history_refuted :
+  wf f36 = true /\ twf f36 = true /\ good_initials f36 = true /\ safe_targets_hb f36 = false /\
+  let s0 := fst (sync_start f36 (st_init [])) in
+  let s1 := fst (sync_send f36 (Build_event "GO" EPlain 0) s0) in
+  legal f36 (s_cfg s0) = true /\ s_cfg s1 = [0; 2; 4; 5] /\ legal f36 (s_cfg s1) = false.
+Proof. vm_compute. repeat split; reflexivity. Qed.
+Print Assumptions C01_history_default_is_history_refuted.
+(* F37: the default target of a history pseudo-state lies outside its parent, and it is targeted from inside *)
+Definition f37 : machine := Build_machine
+  [ n_ "m" None KCompound [1; 5] (Some 1) 0 [];
+    n_ "m.p" (Some 0) KCompound [2; 3; 4] (Some 3) 1 [];
+    hn_ "m.p.h" (Some 1) false 2 (Some 5);
+    n_ "m.p.x" (Some 1) KAtomic [] None 2 [("GO"%string, [Build_trans 0 3 "GO" (TState 2) None [] false false])];
+    n_ "m.p.y" (Some 1) KAtomic [] None 2 [];
+    n_ "m.q" (Some 0) KAtomic [] None 1 [] ] 10 None.
+Theorem C01_history_default_outside_parent_refuted :
+  wf f37 = true /\ twf f37 = true /\ good_initials f37 = true /\ safe_targets_hb f37 = false /\
+  let s0 := fst (sync_start f37 (st_init [])) in
+  let s1 := fst (sync_send f37 (Build_event "GO" EPlain 0) s0) in
+  legal f37 (s_cfg s0) = true /\ s_cfg s1 = [0; 1; 5] /\ legal f37 (s_cfg s1) = false.
+Proof. vm_compute. repeat split; reflexivity. Qed.
+Print Assumptions C01_history_default_outside_parent_refuted.
 
 (* non-vacuity: a legal configuration of a machine with a parallel state, and illegal neighbours of it *)
 Definition ex_m : machine := Build_machine
